@@ -48,8 +48,11 @@ class ReplHost:
         class RecInterpreter(Base):
             def __init__(self, *a, **k):
                 super().__init__(*a, **k)
-                host.interp = self
-                sim.inst[host.name] = self
+                # only interpreters the REPL itself creates are "the REPL's
+                # interpreter" (the harness may create others meanwhile)
+                if threading.current_thread() is host.thread:
+                    host.interp = self
+                    sim.inst[host.name] = self
 
             def interpret(self, script, filename, environment=None):
                 try:
